@@ -8,9 +8,10 @@
    transaction OWNER), and for EVERY on-transaction HTLC one resolution —
    timeout for HTLCs who offered, success (with the preimage) for HTLCs who
    received.  [claimable] = sum of the commitment outputs they spend. *)
-From Coq Require Import List ZArith Bool Arith.
+From Coq Require Import List ZArith Bool Arith Permutation.
 From LV Require Import Channel.Model Channel.Proofs Channel.Resync Channel.Discipline
-                       Channel.Punish Channel.PunishProofs.
+                       Channel.Punish Channel.PunishProofs
+                       Channel.CommitSort Channel.CommitSortProofs.
 Import ListNotations.
 Local Open Scope Z_scope.
 
@@ -57,7 +58,50 @@ Theorem C05_own_outputs_not_dust : forall c o h lA lB nA nB k r,
   dust_sat (side c (c_owner k)) <= r_final r.
 Proof. exact resolutions_final_not_dust. Qed.
 
+(* The commitment output order (InPlaceCommitSort: value, then pkScript bytes,
+   then CLTV) is TOTAL on (value, pkScript, cltv) triples: ANY permutation of the
+   outputs that is in Less-order is the list [commit_sort] computes.  Hence the
+   unstable sort.Sort is deterministic on what matters, and both parties, who add
+   the outputs in different orders, obtain the same transaction. *)
+Theorem C05_commit_sort_canonical : forall l l',
+  Permutation l l' -> out_sortedb l' = true -> l' = commit_sort l.
+Proof. exact commit_sort_canonical. Qed.
+
+(* The i-th HTLC signature of a commit_sig.  For ALL commitment outputs [base]
+   and ALL lists of HTLCs offered by the signer [so] and by the verifier [vo]
+   (both parties hold the same two lists; any amounts, hashes, expiries, dust
+   flags, exact duplicates), provided HTLC scripts commit to the payment hash
+   and offered / received scripts never coincide ([pk_facts]):
+   both parties build the same transaction; populateHtlcIndexes succeeds on both
+   sides and gives every HTLC the same output index on both sides (the signer
+   walks [so] then [vo], the verifier [vo] then [so]); a dust HTLC gets none;
+   the assigned output carries exactly the HTLC's (value, script, cltv);
+   different HTLCs get different outputs; and the list of signature slots
+   (output index, direction, HtlcIndex) in the order the signer SENDS the
+   signatures (jobs sorted by output index) equals the list in the order the
+   verifier CONSUMES them (outputs 0 .. n-1 looked up in incomingHTLCIndex /
+   outgoingHTLCIndex) - one slot per non-dust HTLC. *)
+Theorem C05_htlc_sig_index : forall base so vo, pk_facts so vo ->
+  verifier_tx base so vo = signer_tx base so vo /\
+  exists lo li sigs,
+    signer_view base so vo = Some (lo, li) /\
+    verifier_view base so vo = Some (li, lo) /\
+    map fst lo = so /\ map fst li = vo /\
+    (forall h oi, In (h, oi) (lo ++ li) -> (oi = None <-> h_on h = false)) /\
+    (forall h i, In (h, Some i) (lo ++ li) ->
+       nth_error (signer_tx base so vo) i = Some (out_of h)) /\
+    NoDup (idxs lo ++ idxs li) /\
+    signer_sigs base so vo = Some sigs /\
+    verifier_sigs base so vo = Some sigs /\
+    length sigs = (n_on so + n_on vo)%nat /\
+    (forall s, In s sigs <->
+       (exists h i, In (h, Some i) lo /\ s = (i, true, h_idx h)) \/
+       (exists h i, In (h, Some i) li /\ s = (i, false, h_idx h))).
+Proof. exact htlc_sig_index. Qed.
+
 Print Assumptions C05_claimable_value.
 Print Assumptions C05_claimable_value_reachable.
 Print Assumptions C05_claimable_value_after_resync.
 Print Assumptions C05_own_outputs_not_dust.
+Print Assumptions C05_commit_sort_canonical.
+Print Assumptions C05_htlc_sig_index.
